@@ -15,10 +15,10 @@ type compiledAxiom struct {
 func (w *World) compileAxioms() error {
 	// axioms are only used through explicit "use" instances (quantified string axioms make the
 	// solvers unreliable); nothing to compile ahead of time
-	if true {
-		return nil
-	}
 	for _, ax := range w.P.Axioms {
+		if len(ax.Params) > 0 {
+			continue // quantified axioms are used only through explicit "use" instances
+		}
 		var err error
 		func() {
 			defer func() {
@@ -39,6 +39,15 @@ func (w *World) compileAxioms() error {
 				binders = append(binders, fmt.Sprintf("(%s %s)", v.Op, w.sortOf(p.Type)))
 			}
 			body := env.trBool(ax.Body)
+			reads := false
+			body.walk(func(x *Term) {
+				if strings.HasPrefix(x.Op, "DUMMY_") {
+					reads = true
+				}
+			})
+			if reads {
+				return // reads program state: available through "use" only
+			}
 			if len(binders) > 0 {
 				body = A("forall", A("("+strings.Join(binders, " ")+")"), body)
 			}
